@@ -971,7 +971,11 @@ class HTTPResponse(BaseHTTPResponse):
 
         data = self._raw_read(amt)
 
-        flush_decoder = amt is None or (amt != 0 and not data)
+        # The decoder is flushed once the body has been read to its end: when nothing
+        # more came back, or when this read was the one that completed the body.
+        flush_decoder = amt is None or (
+            amt != 0 and (not data or is_fp_closed(self._fp))
+        )
 
         if not data and len(self._decoded_buffer) == 0:
             if data is not None and amt is not None and flush_decoder and decode_content:
@@ -1010,7 +1014,9 @@ class HTTPResponse(BaseHTTPResponse):
                 # it one byte at a time
                 data = self._raw_read(amt)
                 decoded_data = self._decode(
-                    data, decode_content, flush_decoder or not data
+                    data,
+                    decode_content,
+                    flush_decoder or not data or is_fp_closed(self._fp),
                 )
                 self._decoded_buffer.put(decoded_data)
             data = self._decoded_buffer.get(amt)
